@@ -370,7 +370,7 @@ def run_inplace(W, cfg):
 
 # ------------------------------------------------------------------ histories
 def cfg_hist(tier, seed):
-    out = [{'case': c} for c in ('plane-reuse', 'interleaved-dft2', 'fit-tilt-twice', 'fit-tilt-twice-segmented', 'spectrum-reuse', 'spectrum-edit-sample', 'operand-attributes', 'wavefront-fanout', 'offset-dft2-twice', 'scratch-reuse')]
+    out = [{'case': c} for c in ('plane-reuse', 'interleaved-dft2', 'fit-tilt-twice', 'fit-tilt-twice-segmented', 'spectrum-reuse', 'spectrum-edit-sample', 'operand-attributes', 'multiply-rescale-multiply', 'fit-tilt-copy-segmented', 'wavefront-fanout', 'offset-dft2-twice', 'scratch-reuse')]
     return out, len(out), True
 
 
@@ -464,6 +464,34 @@ def run_hist(W, cfg):
             # shift = z * angle / du with concrete angles: compare the angle factors with a tolerance for the float least squares
             W.ob_close(f'segment {k}: same total tilt by either route (rows)', sa[0] * du / z * 1e6, sb[0] * du / z * 1e6, 1e-6)
             W.ob_close(f'segment {k}: same total tilt by either route (cols)', sa[1] * du / z * 1e6, sb[1] * du / z * 1e6, 1e-6)
+    elif case == 'multiply-rescale-multiply':
+        # a plane used at some wavelength, then rescaled: the rescaled plane behaves like one rescaled from a fresh plane
+        W.float_constants()
+        lam = W.real('lam', pos=True)
+        m = rnp.zeros((3, 4), dtype=int)
+        m[0:2, 1:3] = 1
+        for form in ('scalar', 'array'):
+            kw = {'amplitude': W.real('a', nz=True), 'opd': W.real('o')} if form == 'scalar' else {'amplitude': W.reals('A', (3, 4), nz=True), 'opd': W.reals('O', (3, 4))}
+            p = lt.Pupil(mask=m.copy(), pixelscale=1.0, focal_length=1.0, **kw)
+            first = (lt.Wavefront(lam) * p).field
+            q = p.rescale(2)
+            fresh = lt.Pupil(mask=m.copy(), pixelscale=1.0, focal_length=1.0, **kw).rescale(2)
+            W.ob(f'{form} attributes: product with the rescaled plane = product with a plane rescaled before any use', (lt.Wavefront(lam) * q).field, (lt.Wavefront(lam) * fresh).field)
+            W.ob(f'{form} attributes: the original plane still gives its first product', (lt.Wavefront(lam) * p).field, first)
+    elif case == 'fit-tilt-copy-segmented':
+        # fit_tilt(inplace=False) on a segmented plane: the caller's plane keeps its OPD and gains no Tilt; the copy carries one per segment
+        O = W.reals('o', (2, 4), lo=-1, hi=1)
+        O0 = O.copy()
+        mask = rnp.zeros((2, 2, 4), dtype=int)
+        mask[0, :, :2] = 1
+        mask[1, :, 2:] = 1
+        p = lt.Pupil(amplitude=rnp.ones((2, 4)), opd=O, mask=mask.copy(), pixelscale=1.0, focal_length=1.0)
+        for k in range(2):
+            q = p.fit_tilt(inplace=False)
+            W.ob_true(f'call {k}: the caller\'s plane gains no Tilt', len(p.tilt) == 0)
+            W.ob_true(f'call {k}: the copy carries one Tilt per segment', len(q.tilt) == 2)
+            W.ob(f'call {k}: the caller\'s OPD is untouched', p.opd, O0)
+            W.ob_true(f'call {k}: a copy is returned', not W.same(q, p))
     elif case == 'operand-attributes':
         # the scalar attributes of both operands survive a product and a propagation, and a shared wavefront multiplies the
         # next plane as it would have before
